@@ -127,6 +127,17 @@ func makeArray(t reflect.Type, n int) array {
 	return array{elem: elem, size: size, len: n}
 }
 
+// growArray returns an array of n elements which starts with the elements of a.
+// The copy goes through the reflect package, elements may hold pointers.
+func growArray(t reflect.Type, a array, n int) array {
+	b := makeArray(t, n)
+	st := reflect.SliceOf(t)
+	dst := slice{ptr: b.elem, len: b.len, cap: b.len}
+	src := slice{ptr: a.elem, len: a.len, cap: a.len}
+	reflect.Copy(reflect.NewAt(st, unsafe.Pointer(&dst)).Elem(), reflect.NewAt(st, unsafe.Pointer(&src)).Elem())
+	return b
+}
+
 func (a array) index(i int) value {
 	return value{ptr: unsafe.Pointer(uintptr(a.elem) + (uintptr(i) * a.size))}
 }
